@@ -39,6 +39,8 @@ type c09X struct {
 	SrvSteps []SaslStep
 	AuthOp   int
 	NoopOp   int
+	Slow     bool // server half: ReadTimeout 10 s and a client that takes 6 s over every line of an exchange - slow, never late
+	Partial  bool // a stalled response line was sent in two parts, the first before the silence
 	CliFault int // client half: the exchange is broken off: 1 Server.Close, 2 failing reply writes, 3 a reply write blocked for ever
 }
 
@@ -196,6 +198,14 @@ func genC09(t *Tape, tier string) *Scenario {
 				if behaviour == 5 && i == at%maxInt(1, len(script)) {
 					a.Outcome = "stall"
 					sc.Srv.ReadTO = 10 * time.Second
+					if t.Bool() {
+						// the line is begun before the silence and finished after it
+						x.Partial = true
+						steps = append(steps, Step{Kind: kAuthResp, Data: []byte("c3RhbGxl"), Need: 334},
+							Step{Kind: kAuthResp, Data: []byte("ZA==\r\n"), Need: 334, Wait: 1, Pre: 11 * time.Second})
+						a.NSteps += 2
+						break
+					}
 					steps = append(steps, Step{Kind: kAuthResp, Data: []byte("c3RhbGxlZA==\r\n"), Need: 334, Wait: 1, Pre: 11 * time.Second})
 					a.NSteps++
 					break
@@ -267,6 +277,17 @@ func genC09(t *Tape, tier string) *Scenario {
 	cut := len(x.Attempts) > 0 && x.Attempts[len(x.Attempts)-1].Outcome == "cut"
 	if !cut {
 		steps = append(steps, Step{Kind: kQuit, Data: []byte("QUIT\r\n"), Wait: 1})
+	}
+	if t.Chance(1, 6) {
+		// a slow client: every line of an exchange comes 6 s after the reply before it, with
+		// ReadTimeout at 10 s. The timeout is per line, so none of them is late.
+		x.Slow = true
+		sc.Srv.ReadTO = 10 * time.Second
+		for i := range steps {
+			if (steps[i].Kind == kAuth || steps[i].Kind == kAuthResp) && steps[i].Pre == 0 && len(steps[i].Data) > 0 && steps[i].Data[len(steps[i].Data)-1] == '\n' {
+				steps[i].Pre = 6 * time.Second
+			}
+		}
 	}
 	cs := ConnScript{Lat: drawLat(t), Steps: steps}
 	cs.defaults()
@@ -492,6 +513,12 @@ func checkC09(sc *Scenario, h *History) []Violation {
 			}
 		}
 	}
+	// a response line that was cut by the read timeout is not a response
+	for _, e := range nexts {
+		if e.Arg == hexOrNil([]byte("stalle")) {
+			v("C09.partial-line", "the mechanism received %s, the beginning of a response line the client had not finished when the read timeout struck", e.Arg)
+		}
+	}
 	// nothing reaches the mechanism on a connection where AUTH is not permitted, nor after success
 	allowedCalls := 0
 	for _, a := range x.Attempts {
@@ -659,6 +686,12 @@ func classifyC09(sc *Scenario, h *History, st *Stats) string {
 		if (a.Outcome == "stall" || a.Outcome == "longline") && a.NSteps > 1 && h.Conns[0].StepOff[a.StepIdx+a.NSteps-1] >= 0 {
 			st.Faults["client_answers_a_challenge_"+map[string]string{"stall": "later_than_ReadTimeout", "longline": "with_an_over-long_line"}[a.Outcome]]++
 		}
+		if x.Slow && a.Outcome == "235" && a.NSteps > 1 && a.Allowed && !a.AuthedBefore {
+			st.Probes["slow_client_completes_a_multi-line_exchange"]++
+		}
+		if x.Partial && a.Outcome == "stall" && h.Conns[0].StepOff[a.StepIdx+a.NSteps-1] >= 0 {
+			st.Faults["read_timeout_in_the_middle_of_a_response_line"]++
+		}
 		if !a.Allowed {
 			st.Probes["attempt_not_permitted"]++
 		}
@@ -681,7 +714,7 @@ func classifyC09(sc *Scenario, h *History, st *Stats) string {
 func init() {
 	register(&Property{
 		ID: "C09", Level: "exploration",
-		Rule:     "server half: raw driver (with crypto/tls for STARTTLS and implicit TLS) against the real server over the full product TLS {plaintext, after STARTTLS, implicit} x AllowInsecureAuth x backend {AuthSession, plain} (systematic), a scripted 1-3 step sasl.Server with drawn challenges (empty, binary) that succeeds or fails at a drawn step, and 1-3 AUTH attempts each behaving {straight, bad base64 at step j, '*' at step j, unknown mechanism, cut}, with or without initial response ('=' for empty), AUTH before the greeting, a NOOP marker after every attempt and STARTTLS between attempts; client half: real Client.Auth with a scripted sasl.Client (nil/empty/binary initial response, per-step responses, error at step j) against the same real server, over plaintext, STARTTLS and implicit TLS. Every case is non-trivial; distinct by (half, TLS mode, flags, attempt outcomes, script). Server half also: the client answers a 334 later than ReadTimeout, or with a line over the limit. Client half also: replies re-cut by the network; the exchange broken off by Server.Close or failing/blocked reply writes (Auth reports no success the server's mechanism did not reach).",
+		Rule:     "server half: raw driver (with crypto/tls for STARTTLS and implicit TLS) against the real server over the full product TLS {plaintext, after STARTTLS, implicit} x AllowInsecureAuth x backend {AuthSession, plain} (systematic), a scripted 1-3 step sasl.Server with drawn challenges (empty, binary) that succeeds or fails at a drawn step, and 1-3 AUTH attempts each behaving {straight, bad base64 at step j, '*' at step j, unknown mechanism, cut}, with or without initial response ('=' for empty), AUTH before the greeting, a NOOP marker after every attempt and STARTTLS between attempts; client half: real Client.Auth with a scripted sasl.Client (nil/empty/binary initial response, per-step responses, error at step j) against the same real server, over plaintext, STARTTLS and implicit TLS. Every case is non-trivial; distinct by (half, TLS mode, flags, attempt outcomes, script). Server half also: the client answers a 334 later than ReadTimeout, or with a line over the limit. Client half also: replies re-cut by the network; the exchange broken off by Server.Close or failing/blocked reply writes (Auth reports no success the server's mechanism did not reach). A slow client (ReadTimeout 10 s, 6 s before every line of an exchange) completes its exchanges like a fast one; a response line begun before a silence longer than ReadTimeout and finished after it never reaches the mechanism, not even its beginning.",
 		Gen:      genC09,
 		Check:    checkC09,
 		Classify: classifyC09,
@@ -706,7 +739,7 @@ func init() {
 		Real:        []string{"smtp.Server.Serve/handleConn", "smtp.Conn handleAuth, handleGreet (capabilities), handleStartTLS", "smtp.Client.Auth, NewClientStartTLS", "crypto/tls (client and server)", "net/textproto"},
 		Stub:        []string{"net.Listener (SimListener)", "net.Conn (SimConn)", "Backend/AuthSession (SimBackend)", "sasl.Server and sasl.Client (scripted, recording)", "clock (synctest)", "SMTP client of the server half (raw driver)"},
 		Assumptions: []string{"a nil (as opposed to empty) response from a client mechanism's Next is an unspecified contract and is not generated", "the reply code of a failed/malformed/cancelled exchange is not judged, only that it is not positive and the connection is back in command mode"},
-		Required:    []string{"attempt_235", "attempt_badb64", "attempt_cancel", "attempt_fail", "attempt_unknown-mech", "attempt_not_permitted", "attempt_after_success", "auth_after_failed_starttls_handshake", "client_half", "client_mechanism_error", "empty_initial_response", "tls_handshake_completed", "client_answers_a_challenge_later_than_ReadTimeout", "client_answers_a_challenge_with_an_over-long_line", "client_auth_exchange_broken_off", "attempt_after_HELO", "attempt_after_success_and_a_new_greeting"},
+		Required:    []string{"attempt_235", "attempt_badb64", "attempt_cancel", "attempt_fail", "attempt_unknown-mech", "attempt_not_permitted", "attempt_after_success", "auth_after_failed_starttls_handshake", "client_half", "client_mechanism_error", "empty_initial_response", "tls_handshake_completed", "client_answers_a_challenge_later_than_ReadTimeout", "client_answers_a_challenge_with_an_over-long_line", "client_auth_exchange_broken_off", "attempt_after_HELO", "attempt_after_success_and_a_new_greeting", "slow_client_completes_a_multi-line_exchange", "read_timeout_in_the_middle_of_a_response_line"},
 		QuickRuns:   40000, ThoroughRuns: 1000000,
 	})
 }
